@@ -625,11 +625,10 @@ func init() {
 			viol("misc", msg, []string{msg})
 		}
 		// (c): filter builder call sequences
-		maxLen := 4
-		arities := []int{0, 1, 2, 3, 12}
+		maxLen := 5
+		arities := []int{0, 1, 2, 3, 4, 5, 6, 7, 8, 9, 10, 11, 12}
 		if rp.Tier == "thorough" {
-			maxLen = 5
-			arities = []int{0, 1, 2, 3, 4, 5, 6, 7, 8, 9, 10, 11, 12}
+			maxLen = 6
 		}
 		type task struct {
 			v, n int
@@ -842,6 +841,99 @@ func c18Misc() string {
 		}
 		if a.snap() != b.snap() {
 			return fmt.Sprintf("generic %s: worlds differ afterwards:\n   generic:  %s\n   ID-based: %s", s.name, a.snap(), b.snap())
+		}
+	}
+	// Exchange is a builder: every order of its configuration calls must denote the same operation
+	type exCase struct {
+		name          string
+		adds, removes []generic.Comp
+		rel           generic.Comp
+		act           func(g *g18, ex *generic.Exchange) string
+		ref           func(g *g18) string
+	}
+	exCases := []exCase{
+		{"NewEntity(target)", []generic.Comp{tGR, tG1}, nil, tGR,
+			func(g *g18, ex *generic.Exchange) string { return fmt.Sprint(ex.NewEntity(g.ents[0])) },
+			func(g *g18) string { return fmt.Sprint(ecs.NewBuilder(&g.w, g.gr, g.all[1]).WithRelation(g.gr).New(g.ents[0])) }},
+		{"NewEntity()", []generic.Comp{tGR, tG1}, nil, tGR,
+			func(g *g18, ex *generic.Exchange) string { return fmt.Sprint(ex.NewEntity()) },
+			func(g *g18) string { return fmt.Sprint(g.w.NewEntity(g.gr, g.all[1])) }},
+		{"Add(target)", []generic.Comp{tGR, tG1}, nil, tGR,
+			func(g *g18, ex *generic.Exchange) string { ex.Add(g.ents[1], g.ents[0]); return "" },
+			func(g *g18) string { g.w.Relations().Exchange(g.ents[1], []ecs.ID{g.gr, g.all[1]}, nil, g.gr, g.ents[0]); return "" }},
+		{"Remove()", nil, []generic.Comp{tGX}, nil,
+			func(g *g18, ex *generic.Exchange) string { ex.Remove(g.ents[4]); return "" },
+			func(g *g18) string { g.w.Remove(g.ents[4], g.gx); return "" }},
+		{"Exchange(target)", []generic.Comp{tGR}, []generic.Comp{tGX}, tGR,
+			func(g *g18, ex *generic.Exchange) string { ex.Exchange(g.ents[1], g.ents[0]); return "" },
+			func(g *g18) string {
+				g.w.Relations().Exchange(g.ents[1], []ecs.ID{g.gr}, []ecs.ID{g.gx}, g.gr, g.ents[0])
+				return ""
+			}},
+		{"Exchange()", []generic.Comp{tG1}, []generic.Comp{tGX}, nil,
+			func(g *g18, ex *generic.Exchange) string { ex.Exchange(g.ents[1]); return "" },
+			func(g *g18) string { g.w.Exchange(g.ents[1], []ecs.ID{g.all[1]}, []ecs.ID{g.gx}); return "" }},
+		{"ExchangeBatch(target)", []generic.Comp{tGR}, []generic.Comp{tGX}, tGR,
+			func(g *g18, ex *generic.Exchange) string {
+				f := ecs.All(g.gx).Without(g.gr)
+				return fmt.Sprint(ex.ExchangeBatch(&f, g.ents[0]))
+			},
+			func(g *g18) string {
+				f := ecs.All(g.gx).Without(g.gr)
+				return fmt.Sprint(g.w.Relations().ExchangeBatch(&f, []ecs.ID{g.gr}, []ecs.ID{g.gx}, g.gr, g.ents[0]))
+			}},
+	}
+	for _, c := range exCases {
+		calls := []string{}
+		if c.adds != nil {
+			calls = append(calls, "Adds")
+		}
+		if c.removes != nil {
+			calls = append(calls, "Removes")
+		}
+		if c.rel != nil {
+			calls = append(calls, "WithRelation")
+		}
+		var perms [][]string
+		var permute func(cur, rest []string)
+		permute = func(cur, rest []string) {
+			if len(rest) == 0 {
+				perms = append(perms, append([]string{}, cur...))
+				return
+			}
+			for i := range rest {
+				r2 := append(append([]string{}, rest[:i]...), rest[i+1:]...)
+				permute(append(cur, rest[i]), r2)
+			}
+		}
+		permute(nil, calls)
+		for _, perm := range perms {
+			a, b := newG18(ar), newG18(ar)
+			a.seed(ar, 1)
+			b.seed(ar, 1)
+			var ra, rb string
+			pa := catchP(func() {
+				ex := generic.NewExchange(&a.w)
+				for _, call := range perm {
+					switch call {
+					case "Adds":
+						ex.Adds(c.adds...)
+					case "Removes":
+						ex.Removes(c.removes...)
+					default:
+						ex.WithRelation(c.rel)
+					}
+				}
+				ra = c.act(a, ex)
+			})
+			pb := catchP(func() { rb = c.ref(b) })
+			where := fmt.Sprintf("generic.NewExchange(w).%s then %s", strings.Join(perm, "."), c.name)
+			if (pa == nil) != (pb == nil) {
+				return fmt.Sprintf("%s: panic %v vs ID-based equivalent: panic %v", where, pa, pb)
+			}
+			if ra != rb || a.snap() != b.snap() {
+				return fmt.Sprintf("%s: result %q / world differs from the ID-based equivalent (%q)", where, ra, rb)
+			}
 		}
 	}
 	return ""
